@@ -145,6 +145,13 @@ class Dyn:
     """dynamically typed symbolic value: int (ival) when is_int else a non-int object"""
     def __init__(self, is_int, ival): self.is_int, self.ival = is_int, ival
 
+class Havoc:
+    """value of a variable that a loop body assigns but the loop's contract says nothing about: arbitrary at the head of an arbitrary
+    iteration.  Materialised on use (None-test, truth test, integer arithmetic); obligations on a path that used one are never reported
+    'proved' (the contract does not cover that state) and a failure needs a replayed input to count as a violation."""
+    def __init__(self, name, where): self.name, self.where, self.memo = name, where, {}
+    def __repr__(self): return f"<Havoc {self.name} {self.where}>"
+
 class Lazy:
     """a BaseDeferred object standing for a value known later; final = value wait() yields"""
     def __init__(self, final, typ="int", size=None, announced=None):
@@ -497,6 +504,19 @@ class Engine:
         rec = dict(label=label, kind="vc", secs=0.0, path=list(self.path.decisions), witness=None, detail="",
                    events=[(e[0], e[1]) for e in self.path.events], smt2=None, backend="z3-%s" % z3.get_version_string())
         self.obligations.append(rec)
+        rec = self._prove(rec, cond, region)
+        ht = getattr(self.path, "havoc_touched", None)
+        if ht:
+            if rec["status"] == "proved":
+                rec["status"] = "unknown"; rec["detail"] = "path uses loop variable %s which the loop contract does not cover" % ht
+            elif rec["status"] == "failed":
+                rec["needs_replay"] = True
+                rec["detail"] = ("path uses loop variable %s which the loop contract does not cover (arbitrary at the loop head): counts as a violation "
+                                 "only with a replayed failing input; " % ht) + rec["detail"]
+        return rec
+
+    def _prove(self, rec, cond, region):
+        label = rec["label"]
         if isinstance(cond, bool):
             if cond: rec["status"] = "proved"; rec["backend"] = "syntactic"; return rec
             # concretely false on a feasible path: the path condition itself is the witness
@@ -538,6 +558,7 @@ class Engine:
 
     # ---------- truthiness
     def truth(self, v):
+        if isinstance(v, Havoc): return self.branch(self.touch_havoc(v, "truthy"))
         if is_symbool(v): return self.branch(v)
         if is_symint(v): return self.branch(v != 0)
         if is_symbytes(v):
@@ -634,7 +655,13 @@ class Engine:
         raise Unsupported("unary")
     def e_BinOp(self, n, env, mod):
         return self.binop(n.op, self.eval(n.left, env, mod), self.eval(n.right, env, mod), n)
+    def touch_havoc(self, h, what):
+        self.path.havoc_touched = "%s (%s)" % (h.name, h.where)
+        if what not in h.memo:
+            h.memo[what] = self.fresh_int("havoc_" + h.name) if what == "int" else self.fresh_bool("havoc_%s_%s" % (h.name, what))
+        return h.memo[what]
     def undyn(self, v):
+        if isinstance(v, Havoc): return self.touch_havoc(v, "int")
         if isinstance(v, BitOf): return v.term
         if isinstance(v, Dyn):
             if not self.branch(v.is_int): raise PyRaise(Exc("TypeError"))
@@ -812,6 +839,11 @@ class Engine:
         if isinstance(op, ast.GtE): return a >= b
         raise Unsupported("cmp")
     def identical(self, a, b):
+        if isinstance(a, Havoc) or isinstance(b, Havoc):
+            h, o = (a, b) if isinstance(a, Havoc) else (b, a)
+            if o is None: return self.touch_havoc(h, "isnone")
+            if h is o: return True
+            raise Unsupported(f"identity test on loop variable {h.name} not covered by the loop contract")
         if a is None or b is None: return a is b if not is_sym(a) and not is_sym(b) else False
         if isinstance(a, (bool,)) or isinstance(b, bool): return a is b
         if isinstance(a, (ClassV, Obj, Func, Builtin)) or isinstance(b, (ClassV, Obj, Func, Builtin)): return a is b
@@ -1268,7 +1300,12 @@ class Engine:
         if st.value is not None: self.assign_target(st.target, self.eval(st.value, env, mod), env, mod)
     def s_AugAssign(self, st, env, mod):
         cur = self.eval(st.target, env, mod)
-        v = self.binop(st.op, cur, self.eval(st.value, env, mod))
+        rhs = self.eval(st.value, env, mod)
+        if isinstance(cur, list) and isinstance(st.op, ast.Add) and isinstance(rhs, (list, tuple, type({}.items()), type({}.keys()), type({}.values()), set, frozenset)):
+            cur.extend(rhs)          # list.__iadd__: in place, any iterable
+            self.assign_target(st.target, cur, env, mod)
+            return
+        v = self.binop(st.op, cur, rhs)
         self.assign_target(st.target, v, env, mod)
     def assign_target(self, t, v, env, mod):
         if isinstance(t, ast.Name): env.assign(t.id, v)
@@ -1397,7 +1434,24 @@ class Engine:
         if it is not None: env.vars[idx] = 0
         env.vars["__ghost%d" % ordn] = None      # ghost state of this loop instance (set by spec.havoc, read by spec.inv)
         for lab, c in spec.inv(self, env): self.prove("%s:invariant-holds-on-entry:%s" % (label, lab), c)
+        before = dict(env.vars)
         spec.havoc(self, env)
+        # every other variable the body assigns is arbitrary at the head of an arbitrary iteration too: the contract is silent about it
+        assigned = set()
+        def stores0(node):
+            for c in ast.iter_child_nodes(node):
+                if isinstance(c, (ast.FunctionDef, ast.Lambda, ast.ClassDef)):
+                    if isinstance(c, (ast.FunctionDef, ast.ClassDef)): assigned.add(c.name)
+                    for sub in ast.walk(c):
+                        if isinstance(sub, ast.Nonlocal): assigned.update(sub.names)
+                    continue
+                if isinstance(c, ast.Name) and isinstance(c.ctx, ast.Store): assigned.add(c.id)
+                stores0(c)
+        for b_ in st.body: stores0(ast.Module(body=[b_], type_ignores=[]))
+        for name in sorted(assigned):
+            if name.startswith("__") or name in env.nonlocals: continue
+            if name in env.vars and env.vars[name] is not before.get(name, env): continue     # the contract's havoc set it
+            env.vars[name] = Havoc(name, label)
         i = None
         if it is not None:
             i = self.fresh_int("i"); env.vars[idx] = i
